@@ -46,6 +46,9 @@ pub struct WorldSpec {
     pub tf1: Option<(u16, u64)>,
     #[serde(default)]
     pub tf2: Option<(u16, u64)>,
+    /// packaging: create this many (empty) tick arrays on each side of the start price before any position exists
+    #[serde(default)]
+    pub precreate_arrays: u8,
 }
 
 #[derive(Clone, Debug, Serialize, Deserialize, Hash, PartialEq, Eq)]
@@ -250,7 +253,18 @@ impl Hist {
         }
         let ts = spec.tick_spacing as i32;
         let base_unit = floor_div(spec.start_tick.clamp(MIN_TICK, MAX_TICK), ts);
-        Some(Hist { w, spec: spec.clone(), pool, lps, traders, treasury, array_starts: vec![], base_unit, last_swap: None })
+        let mut h = Hist { w, spec: spec.clone(), pool, lps, traders, treasury, array_starts: vec![], base_unit, last_swap: None };
+        if spec.precreate_arrays > 0 {
+            let n = 88 * ts;
+            let cur = h.w.pool_state(pool).tick_current_index;
+            for k in -(spec.precreate_arrays as i32)..=(spec.precreate_arrays as i32) {
+                let t = cur.saturating_add(k * n);
+                if t >= array_start(MIN_TICK, spec.tick_spacing) && t <= MAX_TICK {
+                    h.ensure_array(t);
+                }
+            }
+        }
+        Some(h)
     }
 
     /// Add a second pool that shares one mint with the first (the shared mint is pool one's A if `share_a`).
@@ -712,6 +726,7 @@ pub fn spec_strategy(with_rewards: bool, wrap_bias: bool) -> BoxedStrategy<World
             mint_kind: 0,
             tf1: None,
             tf2: None,
+            precreate_arrays: 0,
         })
         .boxed()
 }
